@@ -246,14 +246,6 @@ def regions(u: B.Universe, value, factory="dict"):
     computed from the class descriptions and the value only"""
     found = set()
 
-    def walk_any(v):
-        a = v["any"]
-        if factory == "filter_none" and (a["qname"] is None or a["text"] is None or a["tail"] is None):
-            found.add("C04-filter-none-anyelement")
-        for c in a["children"]:
-            if isinstance(c, dict) and "any" in c:
-                walk_any(c)
-
     def walk_obj(v, declared=None, compound=False):
         cname = v["obj"]
         vals = dict((k, x) for k, x in v["fields"])
@@ -266,10 +258,10 @@ def regions(u: B.Universe, value, factory="dict"):
                 pool = ([] if compound else pool) + [declared]
                 keys = [k for k, _, fn in kn if not (factory == "filter_none" and vals.get(fn) is None)]
                 for other in pool:
-                    if other != cname and set(keys) <= {ln for _, ln, _ in _keys_and_names(u, other)}:
+                    # local_names_match: the local names and the wrapper names of the other class
+                    names = {n for k, ln, _ in _keys_and_names(u, other) for n in (k, ln)}
+                    if other != cname and set(keys) <= names:
                         found.add("C04-subclass-ambiguity")
-                if not set(keys) <= {ln for _, ln, _ in kn}:
-                    found.add("C04-wrapper-local-names")
         for f in G.all_fields(u, cname):
             x = vals.get(f["name"])
             md = f.get("metadata", {})
@@ -279,8 +271,9 @@ def regions(u: B.Universe, value, factory="dict"):
                 if not isinstance(it, dict):
                     continue
                 if "any" in it:
-                    walk_any(it)
-                elif "derived" in it:
+                    continue
+                elif "derived" in it or ("obj" in it and md.get("type") == "Wildcard"):
+                    # a model instance under a wildcard, plain or wrapped without xsi:type: no type tag
                     found.add("C04-derived-without-type")
                 elif "obj" in it:
                     if md.get("type") == "Elements":
